@@ -512,7 +512,7 @@ pub fn run(h: &History, with_patches: bool) -> Outcome {
                     // some note currently holds a text no server can be built from: structural check only
                     if !have("C20", &out) {
                         let g = inc.verif_database().graph();
-                        let r = walker::check(g).map(|_| ()).and_then(|_| arena.step(g));
+                        let r = walker::check(g).map(|_| ());
                         if let Err(b) = r {
                             out.violations.push(Violation { property: "C20".into(), step, label: format!("invariant {}", b.invariant), inc: b.what.clone(), fresh: String::new(), signature: format!("inv{}/aborted-update", b.invariant) });
                         }
@@ -559,9 +559,13 @@ pub fn run(h: &History, with_patches: bool) -> Outcome {
                 Err(b) => broken = Some((kind.clone(), b)),
                 Ok((stats, shapes)) => {
                     digest = rng::mix2(digest, stats.live_nodes as u64 * 31 + stats.tombstones as u64);
-                    if let Err(b) = arena.step(g) {
-                        broken = Some((kind.clone(), b));
-                    } else {
+                    // id reuse / arena shrinking is recorded, not demanded: a correct compaction would do it too.
+                    // What the property demands of removed versions is checked by invariants 3 and 8.
+                    if arena.step(g).is_err() {
+                        *out.probes.entry("arena-ids-reused-or-arena-shrank".into()).or_default() += 1;
+                        arena = ArenaHistory::default();
+                    }
+                    {
                         match walker::check(fresh.verif_database().graph()) {
                             Err(b) => broken = Some(("import".into(), b)),
                             Ok((_, fshapes)) => {
